@@ -8,6 +8,7 @@ From FB.Spec Require Import Prog.
 From FB.Model Require Import Types Monad CreatedFiles SimpleOps Builder Run.
 From FB.Proofs Require Import ReplayLaws.
 From FB.Proofs Require CacheGenLaws.   (* T1g: the model routines are equal to the translation of the source (Gen/CacheGen.v) *)
+From FB.Proofs Require OpsGenLaws.   (* T1g: build_file*, subbuild, queries, cache validation of file_builder.py = Model/Builder.v (Gen/OpsGen.v) *)
 Import ListNotations.
 
 (* a second build_file for a claimed path raises RuntimeError, the function is not applied ([fn] does not
